@@ -18,6 +18,7 @@ pub mod frontend;
 pub mod ir;
 #[cfg(feature = "hooks")]
 pub mod lattice;
+pub mod meta;
 pub mod misc;
 pub mod schema;
 pub mod serial;
